@@ -15,5 +15,11 @@ for t in $drivers; do lake build $t || { echo "setup: driver $t failed"; rc=1; }
 lake build $mods || { echo "setup: some property modules failed; building them one by one"; for m in $mods; do lake build $m >/dev/null 2>&1 || echo "setup: FAILED $m"; done; rc=1; }
 cd ../harness
 cargo build --profile verif || { echo "setup: harness build failed"; rc=1; }
+# the Python front end (pyo3 extension) used by the `py` oracle component; a failure here is not
+# fatal (the checks then report the Python campaign as unavailable, never as a violation)
+cd ..
+if [ -x /opt/veriftools/pyvenv/bin/python ]; then
+  /opt/veriftools/pyvenv/bin/python tools/pyfront.py build || true
+fi
 [ $rc -eq 0 ] && echo setup-ok
 exit $rc
